@@ -840,69 +840,66 @@ func (m *Memory) FindLatest(
 	}
 	s := query.Start
 	e := query.End
-	mach := m.Mach
 
 	return m.Match(ctx, func(
 		now *am.TimeIndex, db []*MemoryRecord,
 	) []*MemoryRecord {
-		mTimeIdxs := m.Index(s.MTimeStates)
-		var older *MemoryRecord
+		mTimeIdxsStart := m.Index(s.MTimeStates)
+		mTimeIdxsEnd := m.Index(e.MTimeStates)
 		var ret []*MemoryRecord
 
+	records:
 		for i := len(db) - 1; i >= 0; i-- {
 			if ctx.Err() != nil {
 				return nil
 			}
 			r := db[i]
-			older = nil
-			if i > 0 {
-				older = db[i-1]
-			}
 
 			// states conditions
 
 			// Active
 			for _, state := range query.Active {
 				if !am.IsActiveTick(r.Time.MTimeTracked[m.Index1(state)]) {
-					continue
+					continue records
 				}
 			}
 			// Activated
 			for _, state := range query.Activated {
 				idx := m.Index1(state)
 				if !am.IsActiveTick(r.Time.MTimeTracked[idx]) {
-					continue
+					continue records
 				}
-				// if has previously been active
-				if older != nil && am.IsActiveTick(older.Time.MTimeTracked[idx]) {
-					continue
+				// if hasn't changed during this transition
+				if r.Time.MTimeTrackedDiff[idx] == 0 {
+					continue records
 				}
 			}
 			// Inactive
 			for _, state := range query.Inactive {
-				if am.IsActiveTick(r.Time.MTimeTracked[mach.Index1(state)]) {
-					continue
+				if am.IsActiveTick(r.Time.MTimeTracked[m.Index1(state)]) {
+					continue records
 				}
 			}
 			// Deactivated
 			for _, state := range query.Deactivated {
 				idx := m.Index1(state)
 				if am.IsActiveTick(r.Time.MTimeTracked[idx]) {
-					continue
+					continue records
 				}
-				// if has previously been inactive
-				if older != nil && !am.IsActiveTick(older.Time.MTimeTracked[idx]) {
-					continue
+				// if hasn't changed during this transition
+				if r.Time.MTimeTrackedDiff[idx] == 0 {
+					continue records
 				}
 			}
-			// MTimeStates
-			if len(s.MTimeStates) > 0 {
-				// caution: slice a sliced time slice
-				mTimeTrackedCond := r.Time.MTimeTracked.Filter(mTimeIdxs)
-				if mTimeTrackedCond.Before(false, s.MTime) ||
-					mTimeTrackedCond.After(false, e.MTime) {
-
-					continue
+			// MTimeStates (each state's tick within its own range)
+			for ii, idx := range mTimeIdxsStart {
+				if r.Time.MTimeTracked[idx] < s.MTime[ii] {
+					continue records
+				}
+			}
+			for ii, idx := range mTimeIdxsEnd {
+				if r.Time.MTimeTracked[idx] > e.MTime[ii] {
+					continue records
 				}
 			}
 
